@@ -11,6 +11,7 @@ import (
 	"context"
 	"fmt"
 	"reflect"
+	"regexp"
 	"sort"
 	"strings"
 	"unsafe"
@@ -33,8 +34,9 @@ type DrvCase struct {
 	Bound bool `json:"bound,omitempty"`
 	// Replay: bit 0 = a table is created in the first schema, bit 1 = in the second (created if
 	// absent), bit 2 = a new empty schema "extra" is created, bit 3 = an object the inspector does not
-	// report (a view) is created over the table of bit 0 (PostgreSQL refuses to drop a table others
-	// depend on unless CASCADE is given).
+	// report (a view) is created over the table of bit 0 / bit 4 (PostgreSQL refuses to drop a table others
+	// depend on unless CASCADE is given), bit 4 = two tables whose foreign keys reference each other
+	// are created in the first schema.
 	Replay int `json:"replay"`
 }
 
@@ -110,12 +112,15 @@ func (c catalogue) realm() *schema.Realm {
 
 // mockDB is the Inspector and PlanApplier the real driver talks to.
 type mockDB struct {
-	cat      catalogue
-	deps     map[string]bool // "schema.table" -> a dependent object exists
-	pg       bool
-	bound    string
-	problems []string
-	applied  []string
+	cat  catalogue
+	deps map[string]bool // "schema.table" -> a dependent object exists
+	// fks: "schema.table" -> tables its foreign keys (named fk_<table>) reference.
+	fks           map[string][]string
+	defaultSchema string
+	pg            bool
+	bound         string
+	problems      []string
+	applied       []string
 }
 
 func (m *mockDB) InspectSchema(_ context.Context, name string, _ *schema.InspectOptions) (*schema.Schema, error) {
@@ -125,61 +130,167 @@ func (m *mockDB) InspectSchema(_ context.Context, name string, _ *schema.Inspect
 	if _, ok := m.cat[name]; !ok || name == "" {
 		return nil, &schema.NotExistError{Err: fmt.Errorf("schema %q was not found", name)}
 	}
-	s := m.cat.schema(name)
-	schema.NewRealm(s)
+	r := m.realm()
+	s, _ := r.Schema(name)
 	return s, nil
 }
 
 func (m *mockDB) InspectRealm(context.Context, *schema.InspectRealmOption) (*schema.Realm, error) {
-	return m.cat.realm(), nil
+	return m.realm(), nil
 }
 
-func (m *mockDB) PlanChanges(context.Context, string, []schema.Change, ...migrate.PlanOption) (*migrate.Plan, error) {
-	return &migrate.Plan{}, nil
-}
-
-func (m *mockDB) ApplyChanges(_ context.Context, changes []schema.Change, _ ...migrate.PlanOption) error {
-	for _, ch := range changes {
-		switch ch := ch.(type) {
-		case *schema.AddSchema:
-			m.applied = append(m.applied, "AddSchema("+ch.S.Name+")")
-			if m.cat[ch.S.Name] == nil {
-				m.cat[ch.S.Name] = map[string]bool{}
+// realm renders the catalogue, foreign keys included (objects the inspector does not report - deps - excluded).
+func (m *mockDB) realm() *schema.Realm {
+	r := m.cat.realm()
+	for from, refs := range m.fks {
+		fs, ft := from[:strings.Index(from, ".")], from[strings.Index(from, ".")+1:]
+		s1, ok := r.Schema(fs)
+		if !ok {
+			continue
+		}
+		t1, ok := s1.Table(ft)
+		if !ok {
+			continue
+		}
+		for _, to := range refs {
+			ts, tt := to[:strings.Index(to, ".")], to[strings.Index(to, ".")+1:]
+			s2, ok := r.Schema(ts)
+			if !ok {
+				continue
 			}
-		case *schema.DropSchema:
-			m.applied = append(m.applied, "DropSchema("+ch.S.Name+")")
-			delete(m.cat, ch.S.Name)
+			t2, ok := s2.Table(tt)
+			if !ok {
+				continue
+			}
+			col := schema.NewIntColumn("r_"+tt, "int")
+			t1.AddColumns(col)
+			t1.AddForeignKeys(schema.NewForeignKey("fk_" + tt).AddColumns(col).SetRefTable(t2).AddRefColumns(t2.Columns[0]))
+		}
+	}
+	return r
+}
+
+func (m *mockDB) PlanChanges(ctx context.Context, name string, changes []schema.Change, opts ...migrate.PlanOption) (*migrate.Plan, error) {
+	return m.planner().PlanChanges(ctx, name, changes, opts...)
+}
+
+// planner is the dialect's real (connection-less) planner: the changes a restore function hands over
+// become statements exactly as they would for a server.
+func (m *mockDB) planner() migrate.PlanApplier {
+	if m.pg {
+		return postgres.DefaultPlan
+	}
+	return mysql.DefaultPlan
+}
+
+var (
+	reQID        = "((?:[`\"][^`\"]+[`\"]\\.)?[`\"][^`\"]+[`\"])"
+	reDropTable  = regexp.MustCompile("(?i)^DROP TABLE (IF EXISTS )?" + reQID + "( CASCADE)?$")
+	reDropSchema = regexp.MustCompile("(?i)^DROP (?:SCHEMA|DATABASE) (?:IF EXISTS )?[`\"]([^`\"]+)[`\"]( CASCADE)?$")
+	reAddSchema  = regexp.MustCompile("(?i)^CREATE (?:SCHEMA|DATABASE) (?:IF NOT EXISTS )?[`\"]([^`\"]+)[`\"]")
+	reAlterTable = regexp.MustCompile("(?i)^ALTER TABLE " + reQID + " (.*)$")
+	reDropFKC    = regexp.MustCompile("(?i)DROP (?:CONSTRAINT|FOREIGN KEY) [`\"]([^`\"]+)[`\"]")
+	reCreateTab  = regexp.MustCompile("(?i)^CREATE TABLE " + reQID)
+)
+
+// key turns a possibly qualified, quoted identifier into "schema.table".
+func (m *mockDB) key(qid string) (string, string) {
+	parts := strings.Split(strings.NewReplacer("`", "", "\"", "").Replace(qid), ".")
+	if len(parts) == 2 {
+		return parts[0], parts[1]
+	}
+	return m.defaultSchema, parts[0]
+}
+
+// ApplyChanges plans the changes with the real planner and runs the statements against the
+// catalogue the way the server would: a table cannot be dropped while a foreign key of another
+// table references it or (PostgreSQL) while another object depends on it, unless CASCADE is given.
+func (m *mockDB) ApplyChanges(ctx context.Context, changes []schema.Change, opts ...migrate.PlanOption) error {
+	plan, err := m.planner().PlanChanges(ctx, "restore", changes, opts...)
+	if err != nil {
+		return err
+	}
+	for _, ch := range plan.Changes {
+		stmt := strings.TrimSuffix(strings.TrimSpace(ch.Cmd), ";")
+		m.applied = append(m.applied, stmt)
+		switch {
+		case reDropTable.MatchString(stmt):
+			g := reDropTable.FindStringSubmatch(stmt)
+			sc, t := m.key(g[2])
+			k := sc + "." + t
+			if !m.cat[sc][t] {
+				if g[1] == "" {
+					return fmt.Errorf("table %s does not exist", k)
+				}
+				continue
+			}
+			cascade := g[3] != ""
+			for from, refs := range m.fks {
+				for _, to := range refs {
+					if to == k && from != k && !cascade {
+						return fmt.Errorf("cannot drop table %s because other objects depend on it: a foreign key of %s (SQLSTATE 2BP01 / MySQL 3730)", k, from)
+					}
+				}
+			}
+			if m.deps[k] && m.pg && !cascade {
+				return fmt.Errorf("pq: cannot drop table %s because other objects depend on it (SQLSTATE 2BP01)", k)
+			}
+			delete(m.deps, k)
+			delete(m.fks, k)
+			for from, refs := range m.fks {
+				var keep []string
+				for _, to := range refs {
+					if to != k {
+						keep = append(keep, to)
+					}
+				}
+				m.fks[from] = keep
+			}
+			delete(m.cat[sc], t)
+		case reDropSchema.MatchString(stmt):
+			sc := reDropSchema.FindStringSubmatch(stmt)[1]
+			delete(m.cat, sc)
 			for k := range m.deps {
-				if strings.HasPrefix(k, ch.S.Name+".") {
+				if strings.HasPrefix(k, sc+".") {
 					delete(m.deps, k)
 				}
 			}
-		case *schema.AddTable:
-			m.applied = append(m.applied, "AddTable("+ch.T.Schema.Name+"."+ch.T.Name+")")
-			if m.cat[ch.T.Schema.Name] == nil {
-				m.problems = append(m.problems, fmt.Sprintf("restore creates table %s in missing schema %s", ch.T.Name, ch.T.Schema.Name))
-				continue
+			for k := range m.fks {
+				if strings.HasPrefix(k, sc+".") {
+					delete(m.fks, k)
+				}
 			}
-			m.cat[ch.T.Schema.Name][ch.T.Name] = true
-		case *schema.DropTable:
-			m.applied = append(m.applied, "DropTable("+ch.T.Schema.Name+"."+ch.T.Name+")")
-			if k := ch.T.Schema.Name + "." + ch.T.Name; m.deps[k] {
-				cascade := false
-				for _, e := range ch.Extra {
-					if _, ok := e.(*postgres.Cascade); ok {
-						cascade = true
+		case reAddSchema.MatchString(stmt):
+			sc := reAddSchema.FindStringSubmatch(stmt)[1]
+			if m.cat[sc] == nil {
+				m.cat[sc] = map[string]bool{}
+			}
+		case reAlterTable.MatchString(stmt):
+			g := reAlterTable.FindStringSubmatch(stmt)
+			sc, t := m.key(g[1])
+			k := sc + "." + t
+			if !m.cat[sc][t] {
+				return fmt.Errorf("table %s does not exist", k)
+			}
+			// the foreign keys of the model are named fk_<to-table>.
+			for _, d := range reDropFKC.FindAllStringSubmatch(g[2], -1) {
+				var keep []string
+				for _, to := range m.fks[k] {
+					if "fk_"+to[strings.Index(to, ".")+1:] != d[1] {
+						keep = append(keep, to)
 					}
 				}
-				if m.pg && !cascade {
-					return fmt.Errorf("pq: cannot drop table %s because other objects depend on it (SQLSTATE 2BP01)", ch.T.Name)
-				}
-				delete(m.deps, k)
+				m.fks[k] = keep
 			}
-			delete(m.cat[ch.T.Schema.Name], ch.T.Name)
-		case *schema.ModifySchema, *schema.ModifyTable:
-			m.applied = append(m.applied, fmt.Sprintf("%T", ch))
+		case reCreateTab.MatchString(stmt):
+			sc, t := m.key(reCreateTab.FindStringSubmatch(stmt)[1])
+			if m.cat[sc] == nil {
+				m.problems = append(m.problems, fmt.Sprintf("restore creates table %s in missing schema %s", t, sc))
+				continue
+			}
+			m.cat[sc][t] = true
 		default:
-			m.problems = append(m.problems, fmt.Sprintf("restore applies an unexpected change %T", ch))
+			m.problems = append(m.problems, fmt.Sprintf("restore runs a statement the model does not know: %s", stmt))
 		}
 	}
 	return nil
@@ -246,7 +357,7 @@ func EvalDriver(c DrvCase) (problems []string, outcome string) {
 			init[names[i]]["precious_"+names[i]] = true
 		}
 	}
-	m := &mockDB{cat: init.clone(), deps: map[string]bool{}, pg: c.Dialect == "postgres"}
+	m := &mockDB{cat: init.clone(), deps: map[string]bool{}, fks: map[string][]string{}, pg: c.Dialect == "postgres", defaultSchema: names[0]}
 	if c.Bound {
 		m.bound = names[0]
 	}
@@ -296,12 +407,27 @@ func EvalDriver(c DrvCase) (problems []string, outcome string) {
 	if c.Replay&8 != 0 && c.Replay&1 != 0 {
 		m.deps[names[0]+".replayed_a"] = true
 	}
+	if c.Replay&16 != 0 {
+		// two more tables that reference each other (a cycle the planner has to break up).
+		add(names[0], "cyc_a")
+		add(names[0], "cyc_b")
+		m.fks[names[0]+".cyc_a"] = []string{names[0] + ".cyc_b"}
+		m.fks[names[0]+".cyc_b"] = []string{names[0] + ".cyc_a"}
+		if c.Replay&8 != 0 {
+			m.deps[names[0]+".cyc_a"] = true
+		}
+	}
 	after := m.cat.clone()
 	if err := restore(context.Background()); err != nil {
 		bad("restore failed: %v", err)
 	}
 	problems = append(problems, m.problems...)
-	if m.cat.String() != init.String() || len(m.deps) > 0 {
+	for k, v := range m.fks {
+		if len(v) == 0 {
+			delete(m.fks, k)
+		}
+	}
+	if m.cat.String() != init.String() || len(m.deps) > 0 || len(m.fks) > 0 {
 		bad("the dev database is not handed back as it was: before %s, after the replay %s, after the restore %s dependents %v (applied %v)", init, after, m.cat, m.deps, m.applied)
 	}
 	if len(m.applied) == 0 {
@@ -316,12 +442,12 @@ func drvCases() []DrvCase {
 		for s0 := 0; s0 < 3; s0++ {
 			for s1 := 0; s1 < 3; s1++ {
 				for _, b := range []bool{false, true} {
-					for rp := 0; rp < 16; rp++ {
-						if b && rp&^9 != 0 {
+					for rp := 0; rp < 32; rp++ {
+						if b && rp&^25 != 0 {
 							continue // a bound connection replays into its own schema only
 						}
-						if rp&8 != 0 && (rp&1 == 0 || d != "postgres") {
-							continue // the dependent object hangs off the table of bit 0; modelled for PostgreSQL
+						if rp&8 != 0 && (rp&17 == 0 || d != "postgres") {
+							continue // the dependent object hangs off a replayed table; modelled for PostgreSQL
 						}
 						cs = append(cs, DrvCase{Dialect: d, State: []int{s0, s1}, Bound: b, Replay: rp})
 					}
